@@ -313,6 +313,8 @@ class CosimEngine(Engine):
     def gen(self, ctx, st):
         r = ctx.rng
         cfg = st['cfg']
+        if st.get('pending'):
+            return st['pending'].pop(0)
         kinds = [('invoke', cfg['w_invoke'] * (2.0 if st['invocations'] < 2 else 1.0)),
                  ('read', cfg['w_read'] if st['logs'] else 0.0),
                  ('new', 0.4),
@@ -349,7 +351,20 @@ class CosimEngine(Engine):
             first = r.randint(-n, n)
         if r.random() < 0.35 and n:
             last = r.randint(-n, n)
-        return {'op': 'flatten', 'log': k, 'style': r.choice(['first', 'last', 'last', 'all']), 'first': first, 'last': last}
+        fop = {'op': 'flatten', 'log': k, 'style': r.choice(['first', 'last', 'last', 'all']), 'first': first, 'last': last}
+        if r.random() < 0.25 and 1 <= n <= 4:
+            # the same question asked again after the object's content was replaced by another log with as many runs
+            src = self._gen_source(ctx, st)
+            if src['from'] == 'synth':
+                spec, _ = self._gen_spec(ctx, st, None, False)
+                for _ in range(6):
+                    if len(spec['blocks']) == n and all(b['n'] > 0 for b in spec['blocks']):
+                        break
+                    spec, _ = self._gen_spec(ctx, st, None, False)
+                src = dict(src, spec=spec, fault=None)
+                src.pop('ioerr', None)
+            st['pending'] = [{'op': 'read', 'log': k, 'src': src, 'append': False, 'diff': False}, dict(fop)]
+        return fop
 
     # ------------------------------------------------------------------
     # application
